@@ -120,6 +120,30 @@ pub open spec fn dispatch_post(i: Seq<u8>, r: IResult<&[u8], TlsExtension>,
 '''
 
 LEMMAS = r'''
+// C06 LOCALITY: an extension decoded from b is decoded identically from b ++ x, the remainder simply grows by x
+// (nested length fields can never make the parser read into what follows).
+proof fn lemma_ext_local(b: Seq<u8>, x: Seq<u8>, r1: IResult<&[u8], TlsExtension>, r2: IResult<&[u8], TlsExtension>,
+                         table: spec_fn(u16, Seq<u8>, u16) -> Option<IResult<&'static [u8], TlsExtension<'static>>>)
+    requires dispatch_post(b, r1, table), r1 is Ok, dispatch_post(b + x, r2, table),
+    ensures
+        r2 is Ok, r2->Ok_0.0@ =~= r1->Ok_0.0@ + x,
+        match (r1->Ok_0.1, r2->Ok_0.1) {
+            (TlsExtension::Grease(t1, d1), TlsExtension::Grease(t2, d2)) => t1 == t2 && d1@ =~= d2@,
+            (TlsExtension::Unknown(t1, d1), TlsExtension::Unknown(t2, d2)) => t1 == t2 && d1@ =~= d2@,
+            (e1, e2) => e1 == e2,
+        },
+{
+    reveal_with_fuel(be_val, 3);
+    let bx = b + x;
+    assert(b.len() >= 4);
+    assert(bx[0] == b[0] && bx[1] == b[1] && bx[2] == b[2] && bx[3] == b[3]);
+    assert(be_val(bx, 2) == be_val(b, 2));
+    let l = (b[2] as int) * 256 + (b[3] as int);
+    assert(b.len() >= 4 + l);
+    assert(bx.subrange(4, 4 + l) =~= b.subrange(4, 4 + l));
+    assert(bx.subrange(4 + l, bx.len() as int) =~= b.subrange(4 + l, b.len() as int) + x);
+}
+
 // The three dispatchers agree on every type they all recognise (and on GREASE / unknown types).
 proof fn lemma_tables_agree(t: u16, d: Seq<u8>, l: u16)
     ensures
